@@ -780,8 +780,14 @@ pub fn sanitize_request<T>(
             return None;
         }
         let separator = v.find('-')?;
-        let first: u64 = v.get(6..separator)?.parse().ok()?;
-        let second: u64 = v.get(separator + 1..)?.parse().ok()?;
+        let first = v.get(6..separator)?;
+        let second = v.get(separator + 1..)?;
+        // the positions of a byte range are digits only; `u64::from_str` would also take a `+`
+        if first.starts_with('+') || second.starts_with('+') {
+            return None;
+        }
+        let first: u64 = first.parse().ok()?;
+        let second: u64 = second.parse().ok()?;
         Some((first, second))
     });
     let mut data = CriticalRequestComponents { range: None };
